@@ -168,6 +168,25 @@ enum GCTask {
     Shutdown,
 }
 
+/// Under the verification cfg the broadcast sender carries the sync point `append.sending`
+/// inside `send` itself, so that the instant before the send is a step boundary wherever the
+/// send statement stands (whatever is moved in front of it stays in front of the boundary).
+#[cfg(xs_verif)]
+#[derive(Clone)]
+struct VerifBroadcast(broadcast::Sender<Frame>);
+
+#[cfg(xs_verif)]
+impl VerifBroadcast {
+    fn send(&self, frame: Frame) -> Result<usize, broadcast::error::SendError<Frame>> {
+        crate::verif::point("append.sending", frame.id.to_u128());
+        self.0.send(frame)
+    }
+
+    fn subscribe(&self) -> broadcast::Receiver<Frame> {
+        self.0.subscribe()
+    }
+}
+
 #[derive(Clone)]
 pub struct Store {
     pub path: PathBuf,
@@ -176,7 +195,10 @@ pub struct Store {
     idx_topic: PartitionHandle,
     idx_context: PartitionHandle,
     contexts: Arc<RwLock<HashSet<Scru128Id>>>,
+    #[cfg(not(xs_verif))]
     broadcast_tx: broadcast::Sender<Frame>,
+    #[cfg(xs_verif)]
+    broadcast_tx: VerifBroadcast,
     gc_tx: UnboundedSender<GCTask>,
     append_lock: Arc<Mutex<()>>,
 }
@@ -208,6 +230,8 @@ impl Store {
             1024 => broadcast_tx,
             n => broadcast::channel(n).0,
         };
+        #[cfg(xs_verif)]
+        let broadcast_tx = VerifBroadcast(broadcast_tx);
         let (gc_tx, gc_rx) = mpsc::unbounded_channel();
 
         let mut contexts = HashSet::new();
@@ -707,8 +731,7 @@ impl Store {
             // the frame is about to become observable: its content must already be in the CAS
             crate::verif::note("append.visible", &hash.to_string());
         }
-        #[cfg(xs_verif)]
-        crate::verif::point("append.sending", frame.id.to_u128());
+        // (under the verification cfg the sync point `append.sending` sits inside this send)
         let _ = self.broadcast_tx.send(frame.clone());
         #[cfg(xs_verif)]
         crate::verif::point("append.broadcast", frame.id.to_u128());
